@@ -153,3 +153,10 @@ Theorem C10_not_after_stop : forall fuel c e spawn script y s,
   In y (timer_cycles fuel c e spawn script) -> v_stop e = Some s -> y_start y < s.
 Proof. exact law_not_after_stop. Qed.
 Print Assumptions C10_not_after_stop.
+
+(* fuel: the model's idle wait (the loop before a run) never runs out of fuel when fuel >= |changes| + 2;
+   the harness evaluates the model with fuel 400 and at most 4 changes. *)
+Theorem C10_idle_wait_fuel : forall e i fuel now evs t, (List.length (v_resets e) + 2 <= fuel)%nat ->
+  idle_wait fuel e i now <> (evs, WEnd (FFuel t)).
+Proof. exact idle_wait_fuel_enough. Qed.
+Print Assumptions C10_idle_wait_fuel.
